@@ -2,6 +2,7 @@
 from _cfg import *
 
 def check_case(rep, case, name):
+    if case.get('kind') == 'nested': nested_cases(rep); return
     rng = random.Random(case['seed'])
     kind = case['kind']
     if kind == 'pair':
@@ -44,11 +45,24 @@ def gen_case(rng):
     return dict(kind=rng.choice(['pair', 'eam', 'fs']), seed=rng.randint(0, 10 ** 6), p=rng.choice([0.0, 0.3, 0.7]), names=names,
                 unused=rng.sample(['unused', 'dr', 'y', 'interpolation', 'O-O'], rng.randint(0, 2)), custom_form=rng.random() < 0.3)
 
+def nested_cases(rep):
+    plain = '[Tabulation]\ntarget : LAMMPS\nnr : 12\ncutoff : 5.5\n\n[Species]\nO.charge : -2.0\n\n[Pair]\nO-O : as.buck 1388.77 0.3623 175.0\nU-O : as.coul 4.0 -2.0\n'
+    templ = ('[Variables]\nrho : 0.3623\nC_OO : 175.0\ntail : ${rho} ${C_OO}\nOO_params : 1388.77 ${tail}\nq_O : -2.0\n\n[Tabulation]\ntarget : LAMMPS\nnr : 12\ncutoff : 5.5\n\n'
+             '[Species]\nO.charge : ${q_O}\n\n[Pair]\nO-O : as.buck ${OO_params}\nU-O : as.coul 4.0 ${Species:O.charge}\n')
+    rep.case('nested', 'variables built from variables; ${Species:O.charge} whose value is ${q_O}')
+    try: want = tabulate_text(plain)
+    except Exception as e: rep.dev('nested-placeholders', dict(kind='nested'), 'plain file rejected %r' % (e,), 'accepted'); return
+    try: got = tabulate_text(templ)
+    except Exception as e: rep.dev('nested-placeholders', dict(kind='nested'), 'templated file: %s: %s' % (type(e).__name__, str(e)[:120]), 'same output as the hand-substituted file'); return
+    if got != want: rep.dev('nested-placeholders', dict(kind='nested'), 'templated file tabulates differently', 'same bytes')
+    else: rep.ok()
+
 if __name__ == '__main__':
     pl = payload(); rep = Report('C15')
     if pl.get('mode') == 'replay': rep.case('replay', pl['input']); check_case(rep, pl['input'], 'replay')
     else:
         rng = random.Random(pl.get('seed', 0))
+        nested_cases(rep)
         for i in range(pl.get('n', 40)):
             c = gen_case(rng); rep.case(c['kind'], c); check_case(rep, c, 'seeded-%d' % i)
     rep.finish()
